@@ -78,7 +78,7 @@ func (g *tokGen) GenerateTokens(n int, taken []uint32) ring.Tokens {
 	return out
 }
 func (g *tokGen) CanJoin(map[string]ring.InstanceDesc) error { return nil }
-func (g *tokGen) CanJoinEnabled() bool                        { return false }
+func (g *tokGen) CanJoinEnabled() bool                       { return false }
 
 func stateOf(s string) ring.InstanceState {
 	switch s {
